@@ -75,7 +75,8 @@ Section(kind, pts, ext, dir, mux) ==
     ext |-> IF kind \in RtpKinds THEN ext ELSE <<>>,
     dir |-> IF kind \in RtpKinds THEN dir ELSE "sendrecv",
     mux |-> IF kind \in RtpKinds THEN mux ELSE FALSE,
-    setup |-> desc.setup, port0 |-> FALSE ]
+    setup |-> desc.setup, port0 |-> FALSE,
+    fmts |-> CASE kind = "application" -> <<"webrtc-datachannel">> [] kind = "image" -> <<"t38">> [] OTHER -> <<>> ]
 
 Cfgs == [mode : Modes, compat : Compats, caps : Caps, pre : Pres, neg : Negs]
 
